@@ -146,3 +146,24 @@ where
     }
     Ok(())
 }
+
+/// Verification facade (cargo feature `verif`, off by default): re-exports of the
+/// already-`pub` codec items of the private modules, nothing else.
+#[cfg(feature = "verif")]
+#[allow(unused_imports)]
+pub mod verif {
+    pub use super::config::SslConfig;
+    pub use super::template::message::InboundIn;
+    pub use super::template::message::OutboundIn;
+    pub mod shadowsocks {
+        pub use crate::server::shadowsocks::verif::*;
+    }
+    pub mod vmess {
+        pub use crate::server::vmess::ServerAeadCodec;
+        pub use crate::server::vmess::new_codec;
+    }
+    pub mod trojan {
+        pub use crate::server::trojan::ServerCodec;
+        pub use crate::server::trojan::new_codec;
+    }
+}
